@@ -31,6 +31,9 @@ pub struct Checks {
     pub alive: bool,
     /// sync discipline clauses over the log (C12)
     pub sync: bool,
+    /// blob files on disk and the active record count follow the model's rotations; closed,
+    /// non-empty, dumped blobs have an index file (C13)
+    pub rotation: bool,
 }
 
 #[derive(Debug, Clone)]
@@ -106,6 +109,7 @@ pub struct HistoryRun {
 }
 
 struct MainOut {
+    listing: Vec<(String, u64)>,
     outcome: Outcome,
     obs_before: Option<Obs>,
     obs_after: Option<Obs>,
@@ -125,6 +129,7 @@ async fn main_task<K: HKey>(spec: SeqSpec, history: Vec<Op>) -> MainOut {
         Ok(w) => w,
         Err(e) => {
             return MainOut {
+                listing: vec![],
                 outcome: Outcome::Done,
                 obs_before: None,
                 obs_after: None,
@@ -147,12 +152,18 @@ async fn main_task<K: HKey>(spec: SeqSpec, history: Vec<Op>) -> MainOut {
             }
             if spec.checks.no_harm {
                 snap_before = Some(tap::snapshot_blobs(&dir));
+                w.snapshot_restarts = true;
             }
         }
         let out = apply_op(&mut w, *op).await;
+        if let Some(s) = w.restart_snapshot.take() {
+            // the harness itself damaged a blob: judge pearl from the damaged state on
+            snap_before = Some(s);
+        }
         if w.storage.is_none() {
             findings.push(finding("restart", format!("{} failed: {:?}", op.short(), out)));
             return MainOut {
+                listing: vec![],
                 outcome: out,
                 obs_before,
                 obs_after: None,
@@ -171,6 +182,7 @@ async fn main_task<K: HKey>(spec: SeqSpec, history: Vec<Op>) -> MainOut {
         if w.storage.is_none() {
             findings.push(finding("restart", format!("epilogue {} failed", op.short())));
             return MainOut {
+                listing: vec![],
                 outcome,
                 obs_before,
                 obs_after: None,
@@ -200,11 +212,13 @@ async fn main_task<K: HKey>(spec: SeqSpec, history: Vec<Op>) -> MainOut {
         }
     }
     let worker_alive = crate::ctl::with_ctl(|c| c.task_alive("worker"));
+    let listing = world::dir_listing(&dir);
     // close: must return (a hang shows as a deadlock of the run)
     if let Err(e) = w.close().await {
         findings.push(finding("close", format!("close failed: {e:#}")));
     }
     MainOut {
+        listing,
         outcome,
         obs_before,
         obs_after: Some(obs_after),
@@ -237,17 +251,16 @@ pub fn run_history<K: HKey>(spec: &SeqSpec, history: &[Op]) -> HistoryRun {
         let log = exec.ctl.log.borrow();
         monitor_findings.extend(crate::engines::syncmon::check_log(&log, spec.wcfg.max_dirty));
     }
-    let (outcome, obs_before, obs_after, dir, worker_alive) = match exec.result {
+    let (outcome, obs_before, obs_after, dir, worker_alive, listing) = match exec.result {
         Ok(m) => {
             monitor_findings.extend(m.findings);
-            (m.outcome, m.obs_before, m.obs_after, m.dir, m.worker_alive)
+            (m.outcome, m.obs_before, m.obs_after, m.dir, m.worker_alive, m.listing)
         }
         Err(e) => {
             monitor_findings.push(finding("panic", format!("{e}; panics: {panics:?}")));
-            (Outcome::Done, None, None, std::path::PathBuf::new(), false)
+            (Outcome::Done, None, None, std::path::PathBuf::new(), false, vec![])
         }
     };
-    let listing = world::dir_listing(&dir);
     HistoryRun {
         outcome,
         obs_before,
@@ -275,6 +288,7 @@ pub fn run_history_dyn(spec: &SeqSpec, history: &[Op]) -> HistoryRun {
 pub fn model_history(spec: &SeqSpec, history: &[Op]) -> (RefStore, RefStore, Expect) {
     // (a lazy start on an empty directory still creates the first blob)
     let mut m = RefStore::fresh(spec.wcfg.allow_duplicates);
+    m.max_data = spec.wcfg.max_data_in_blob;
     let mut before = m.clone();
     let mut exp = Expect::Done;
     for (i, op) in history.iter().enumerate() {
@@ -341,6 +355,30 @@ pub fn judge(spec: &SeqSpec, history: &[Op], run: &HistoryRun) -> Vec<Finding> {
         }
         if spec.checks.accounting {
             out.extend(oracle::compare_accounting_obs(&m_after, obs, &run.listing));
+        }
+        if spec.checks.rotation {
+            let blob_files = run.listing.iter().filter(|(n, _)| n.ends_with(".blob")).count();
+            if blob_files != m_after.blobs_count() || obs.in_active != m_after.records_count_in_active() {
+                out.push(finding(
+                    "rotation",
+                    format!(
+                        "{} blob files / {:?} records in the active blob, model: {} blobs / {:?} (listing {:?})",
+                        blob_files,
+                        obs.in_active,
+                        m_after.blobs_count(),
+                        m_after.records_count_in_active(),
+                        run.listing
+                    ),
+                ));
+            }
+            for b in m_after.closed.iter().flatten() {
+                if b.index_on_disk && !run.listing.iter().any(|(n, _)| *n == format!("t.{}.index", b.id)) {
+                    out.push(finding(
+                        "index_dump",
+                        format!("closed blob {} has no index file after the requested dump (listing {:?})", b.id, run.listing),
+                    ));
+                }
+            }
         }
         if spec.checks.transparent {
             if let (Some(before), Some(last)) = (&run.obs_before, history.last()) {
